@@ -10,7 +10,9 @@
 (* (entries of A2's `configs:` list).  A1's only entry is its `config:`.   *)
 (*                                                                         *)
 (* template-data at a level is a partial map key -> kind of value          *)
-(* ("str", "bool", "int", "obj").  A schema is                             *)
+(* ("str", "bool", "int", "obj"; "strT" / "str1" are strings that PRINT     *)
+(* like the boolean true / the integer 1 -- values that differ from a      *)
+(* conforming one in JSON type only).  A schema is                         *)
 (*    [req: required keys, open: additionalProperties, types: key -> kind] *)
 (*                                                                         *)
 (* Contract layer: FileVerdict(c, f) -- the property as a function of the  *)
@@ -63,9 +65,12 @@ SchemaLoc(c, f) == EffSetting(c.tsch, ChainOfMock(FirstMock(f)), "default")     
 -----------------------------------------------------------------------------
 (* Contract *)
 
+\* JSON type of a kind of value: how a value prints is irrelevant to the schema
+TypeOf(v) == IF v \in {"str", "strT", "str1"} THEN "str" ELSE v
+
 Valid(m, S) == /\ S.req \subseteq DOMAIN m
                /\ ~S.open => DOMAIN m \subseteq DOMAIN S.types
-               /\ \A k \in DOMAIN m \cap DOMAIN S.types : m[k] = S.types[k]
+               /\ \A k \in DOMAIN m \cap DOMAIN S.types : TypeOf(m[k]) = S.types[k]
 
 IsShape(st) == st \in DOMAIN Shapes
 
